@@ -42,10 +42,27 @@ pub const X0: u64 = 20; // unrelated transactions X0..X0+9
 /// Deliver a block connection the way the real front end does: compact proof, or — when requested, or
 /// when the compact filter has a false positive for a watched outpoint (`TxoProof::verify` refuses the
 /// filter proof) — streamed (`block_chunk` + `ProofType::ExternalBlock`).  May panic (caller catches).
+/// Compact proof as a real follower builds it (`TxoProof::prove`): the SPV part contains only the transactions
+/// matched by the watches the signer reports (`ForwardWatches` for a connection, `ReverseWatches` for a
+/// disconnection) and their descendants.  Every second block (by hash) gets such a proof, the others a proof with
+/// all transactions of the block.
+pub fn compact_proof(tracker: &ChainTracker<ChainMonitor>, block: &Block, prev_fh: &lightning_signer::bitcoin::hash_types::FilterHeader, height: u32, reverse: bool) -> TxoProof {
+    let base = TxoProof::prove_unchecked(block, prev_fh, height);
+    if block.block_hash().to_byte_array()[1] % 2 == 0 {
+        return base;
+    }
+    let (txids, outpoints) = if reverse { tracker.get_all_reverse_watches() } else { tracker.get_all_forward_watches() };
+    let spv = lightning_signer::txoo::spv::SpvProof::build(block, &txids, &outpoints).0;
+    match &base.proof {
+        ProofType::Filter(f, _) => TxoProof { attestations: base.attestations.clone(), proof: ProofType::Filter(f.clone(), spv) },
+        _ => base,
+    }
+}
+
 pub fn deliver_add(tracker: &mut ChainTracker<ChainMonitor>, block: &Block, want_streamed: bool) -> Result<bool, lightning_signer::chain::tracker::Error> {
     let tip = tracker.tip().clone();
     let h = tracker.height();
-    let proof = TxoProof::prove_unchecked(block, &tip.1, h + 1);
+    let proof = compact_proof(tracker, block, &tip.1, h + 1, false);
     let secp = lightning_signer::bitcoin::secp256k1::Secp256k1::new();
     let watches = tracker.get_all_forward_watches().1;
     let zero = tip.1.to_byte_array().iter().all(|x| *x == 0);
@@ -63,7 +80,7 @@ pub fn deliver_add(tracker: &mut ChainTracker<ChainMonitor>, block: &Block, want
 pub fn deliver_remove(tracker: &mut ChainTracker<ChainMonitor>, block: &Block, want_streamed: bool) -> Result<bool, lightning_signer::chain::tracker::Error> {
     let prev = tracker.headers()[0].clone();
     let h = tracker.height();
-    let proof = TxoProof::prove_unchecked(block, &prev.1, h);
+    let proof = compact_proof(tracker, block, &prev.1, h, true);
     let secp = lightning_signer::bitcoin::secp256k1::Secp256k1::new();
     let watches = tracker.get_all_reverse_watches().1;
     let zero = prev.1.to_byte_array().iter().all(|x| *x == 0);
